@@ -434,7 +434,10 @@ pub fn record_c10(out: &str, seed: u64, thorough: bool) {
     let mut samples = vec![];
     let mut accepted = 0u64;
     let mut over_bound = 0u64;
+    let current = format!("{}.current", out);
     for (fi, (name, bytes)) in faults.iter().enumerate() {
+        // if the process is killed by the load (allocation failure, stack overflow: not catchable), this file says by which input
+        let _ = std::fs::write(&current, json!({"fault": name, "len": bytes.len(), "hex": bytes.iter().take(4096).map(|b| format!("{:02x}", b)).collect::<String>()}).to_string());
         let mark = alloc_mark();
         let r = guarded(|| target.deserialize(bytes).is_ok());
         let peak = alloc_peak_since(mark);
@@ -476,6 +479,7 @@ pub fn record_c10(out: &str, seed: u64, thorough: bool) {
             w.put(&json!({"ev": "battery", "digest": battery(&target).unwrap_or_else(|p| format!("panic:{}", p))}));
         }
     }
+    let _ = std::fs::remove_file(&current);
     let events = w.n;
     w.finish();
     println!("{}", json!({"events": events, "nontrivial": nontrivial, "samples": samples,
